@@ -1,5 +1,6 @@
 import PlzVerif.Model.AspFacts
 import PlzVerif.Generated.C16
+import PlzVerif.Generated.C18
 /-
 The asp model instantiated at the facts read from /repo on this run (`Generated/C16.lean`, or the committed
 `Expected/C16.lean` when the extractor cannot read the source).  Shared by the C16–C18 property files and drivers.
@@ -13,7 +14,8 @@ def genRaw : RawFacts :=
     listAddAppendsToReceiver := C16.listAddAppendsToReceiver, listAddClips := C16.listAddClips,
     freezeWraps := C16.freezeWraps,
     sortedArg := C16.sortedArg, reversedArg := C16.reversedArg,
-    constantFoldsLists := C16.constantFoldsLists, listSlice := C16.listSlice }
+    constantFoldsLists := C16.constantFoldsLists, listSlice := C16.listSlice,
+    natives := C18.natives, equalVia := C18.equalVia }
 
 /-- The asp model at the regenerated facts. -/
 def genF : Facts := factsOf genRaw
